@@ -36,9 +36,14 @@ def gen(rng, tier, run):
     kinds = kinds[:len(shape)]
     slices = [[bound(rng, n), bound(rng, n)] if rng.random() < 0.8 else [None, None] for n in shape]
     # an explicitly written unit step is a unit step too (ds[-2::1]); bounds may be numpy integers (np.searchsorted, argmax)
-    return {'shape': shape, 'kinds': kinds, 'slices': slices,
+    case = {'shape': shape, 'kinds': kinds, 'slices': slices,
             'steps': [1 if rng.random() < 0.3 else None for _ in shape],
             'npint': rng.choice([None, None, 'int64', 'int32', 'intp'])}
+    if rng.random() < 0.15:
+        names = [rng.choice(['e', 't', 'a dimension', 'µ', '0']) + str(ax) for ax in range(len(shape))]
+        names[rng.randrange(len(shape))] = ''
+        case['names'] = names
+    return case
 
 
 def exhaustive(tier, run):
@@ -84,7 +89,9 @@ def shrink(case):
 
 
 def make_bins(case):
-    return [[f'b{ax}', [100 * ax + i for i in range(n + (1 if kind == 'e' else 0))]]
+    # the name of a dimension is any string (the empty one included, for one of them)
+    names = case.get('names') or [f'b{ax}' for ax in range(len(case['shape']))]
+    return [[names[ax], [100 * ax + i for i in range(n + (1 if kind == 'e' else 0))]]
             for ax, (n, kind) in enumerate(zip(case['shape'], case['kinds']))]
 
 
